@@ -32,6 +32,11 @@ pub fn c02_scenario(seed: u64, idx: u64) -> Scenario {
         let mut c = Conn::simple(i, if overlapped { 0 } else { i as u32 }, bytes, class);
         if rng.chance(1, 5) {
             transport_fault(&mut rng, &mut c, &["short_write"]);
+            if big {
+                if let Cuts::Every(k) = c.faults.cuts {
+                    c.faults.cuts = Cuts::Every(k.max(64));
+                }
+            }
         }
         sc.conns.push(c);
     }
